@@ -1,5 +1,6 @@
 package main
 
+<<<<<<< HEAD
 import (
 	"fmt"
 	"math"
@@ -220,6 +221,9 @@ func negZeroAliasProbe(c *Ctx) {
 		})
 	}
 }
+=======
+import "strings"
+>>>>>>> origin/main
 
 func runC01(c *Ctx) {
 	r := c.R
@@ -245,12 +249,28 @@ func runC01(c *Ctx) {
 	ok = append(ok, CompileCorrespondenceBuilt(c, enum)...)
 	res := VMCorrespondence(c, ok, 1000)
 	// tie of the Spec as the theorems use it (mirroring the code's known deviations)
+	tieDiff := map[*VMResult]bool{}
 	SpecCorrespondence(c, res, 1000, asIs.RangeSigned, true, func(vr *VMResult, spec, real string) {
+		tieDiff[vr] = true
 		r.Mismatch("spec", vr.Case.Src+" ["+vr.Case.Mode.String()+"] env="+valSx(envVal(vr.Case)).String()+" tree="+vr.Case.B.TreeSx, spec, real)
 	})
+<<<<<<< HEAD
 	negZeroAliasProbe(c)
 	// end to end through ALL model stages: source text -> lexer, parser, compiler, VM models vs expr.Eval
 	EvalSourceCorrespondence(c, cases, 1000)
+=======
+	// the property oracle: the language definition itself (left-to-right evaluation, unsigned range sizes)
+	SpecCorrespondence(c, res, 1000, false, false, func(vr *VMResult, spec, real string) {
+		key := "c01:differs-from-language-definition"
+		if !tieDiff[vr] && strings.Contains(vr.Case.B.TreeSx, "(slice ") {
+			// the one listed deviation: the compiler emits the `to` bound of a[from:to] before `from`
+			key = "c01:slice-bounds-evaluated-right-to-left"
+		}
+		r.Violate(Violation{What: "compiled evaluation differs from the reference evaluator (value, error class, call log or allocation total)",
+			Key: key, Input: map[string]string{"expr": vr.Case.Src, "mode": vr.Case.Mode.String(), "env": valSx(envVal(vr.Case)).String(), "tree": vr.Case.B.TreeSx},
+			Expect: spec, Got: real})
+	})
+>>>>>>> origin/main
 }
 
 func init() { props["C01"] = runC01 }
